@@ -265,7 +265,7 @@ func genReq(t *rapid.T, c Cfg, idx int) Req {
 	}
 	var applied []string
 	for i := 0; i < nm; i++ {
-		m := rapid.SampledFrom(muts).Draw(t, "mut")
+		m := rapid.SampledFrom(applicable(c, &r)).Draw(t, "mut")
 		if applyMut(t, c, &r, m) {
 			applied = append(applied, m)
 		}
@@ -279,6 +279,27 @@ func nonIgnoredIdx(r *Req) []int {
 	for i, h := range r.Headers {
 		if !isIgnored(h.Name) {
 			out = append(out, i)
+		}
+	}
+	return out
+}
+
+// applicable lists the mutations that can change this request under this configuration.
+func applicable(c Cfg, r *Req) []string {
+	out := []string{"method-get", "method-put", "method-head"}
+	if len(effectiveUris(c)) > 0 {
+		out = append(out, "path-wrong", "path-extra-query", "path-case", "path-prefix")
+	}
+	if len(nonIgnoredIdx(r)) > 0 {
+		out = append(out, "hdr-missing", "hdr-wrong", "hdr-case", "hdr-truncated", "hdr-truncated", "hdr-extended")
+	}
+	if c.UserAgent != "" {
+		out = append(out, "ua-wrong", "ua-missing", "ua-case")
+	}
+	for _, h := range r.Headers {
+		if isIgnored(h.Name) {
+			out = append(out, "ignored-altered")
+			break
 		}
 	}
 	return out
@@ -327,6 +348,15 @@ func applyMut(t *rapid.T, c Cfg, r *Req, m string) bool {
 			return false
 		}
 		i := idx[rapid.IntRange(0, len(idx)-1).Draw(t, "which-hdr")]
+		if m == "hdr-truncated" {
+			// prefer a header whose value contains ": " (the interesting cut point)
+			for _, j := range idx {
+				if strings.Contains(r.Headers[j].Value, ": ") {
+					i = j
+					break
+				}
+			}
+		}
 		v := r.Headers[i].Value
 		switch m {
 		case "hdr-missing":
@@ -633,7 +663,47 @@ func buildRequest(r Req, agentID uint32) *http.Request {
 	return req
 }
 
+// check judges every request of the case and reports the first violation that is
+// not an open known finding (so that a known finding in request 0 does not hide
+// what the remaining requests and assertions show); when all are known, the first.
 func check(c Case) *core.Violation {
+	var all []*core.Violation
+	run(c, func(v *core.Violation) { all = append(all, v) })
+	if len(all) == 0 {
+		return nil
+	}
+	known := knownSigs()
+	for _, v := range all {
+		if !known[v.Sig] {
+			return v
+		}
+	}
+	return all[0]
+}
+
+var (
+	knownOnce sync.Once
+	knownSet  map[string]bool
+)
+
+func knownSigs() map[string]bool {
+	knownOnce.Do(func() {
+		knownSet = map[string]bool{}
+		b, err := os.ReadFile(os.Getenv("VERIF_KNOWN"))
+		if err != nil {
+			return
+		}
+		for _, ln := range strings.Split(string(b), "\n") {
+			var k struct{ Property, Signature, Status string }
+			if json.Unmarshal([]byte(strings.TrimSpace(ln)), &k) == nil && k.Property == "C12" && k.Status == "open" {
+				knownSet[k.Signature] = true
+			}
+		}
+	})
+	return knownSet
+}
+
+func run(c Case, report func(*core.Violation)) {
 	h, rec, stop := startListener(c.Cfg)
 	defer stop()
 	rec.Take()
